@@ -64,3 +64,8 @@ Definition first_of {Vr} `{EqDec Vr} (G : cfg Vr) (A : Vr) : list (option N) :=
   map snd (filter (fun p => eqb A (fst p)) (first_set G)).
 Definition follow_of {Vr} `{EqDec Vr} (G : cfg Vr) (A : Vr) : list (option N) :=
   map snd (filter (fun p => eqb A (fst p)) (follow_set G)).
+
+(* ---- C11 / C13: pushdown automata ---- *)
+From PFL Require Export Spec.Pda Model.Pda Oracle.PdaAccept Spec.Enfa Model.Enfa.
+Definition first_diff (f g : list N -> bool) (ws : list (list N)) : option (list N) :=
+  find (fun w => negb (Bool.eqb (f w) (g w))) ws.
